@@ -62,7 +62,9 @@ const LOOKALIKES: &[&str] = &[
     "true_", "False", "True", "Int", "U", "pi", "qubits", "boxed", "_a", "a_", "__", "_0",
 ];
 const ID_START: &[char] = &['a', 'b', 'q', 'x', 'Z', 'é', 'π', 'µ', 'τ', 'ℇ', '中', 'λ', '_'];
-const ID_CONT: &[char] = &['a', 'k', 'z', 'Q', '0', '7', '_', 'é', 'π', '中', 'µ'];
+// includes characters that may continue but not start an identifier (XID_Continue only):
+// combining acute, Arabic-Indic digit, middle dot, undertie, Devanagari vowel sign, full-width digit
+const ID_CONT: &[char] = &['a', 'k', 'z', 'Q', '0', '7', '_', 'é', 'π', '中', 'µ', '\u{301}', '\u{663}', '\u{b7}', '\u{203f}', '\u{93f}', '\u{ff11}', 'ψ'];
 
 pub fn is_reserved(s: &str) -> bool {
     s == "_" || s == "OPENQASM" || s == "pragma" || KEYWORDS.contains(&s) || TYPES.contains(&s)
@@ -463,7 +465,7 @@ pub fn gen_malformed(src: &mut Src, allow_swallow: bool) -> Lexeme {
             l
         }
         7 => {
-            let p = ["x😀", "😀", "a😀b", "q_😀😀", "é😀"][src.below(5)];
+            let p = ["x😀", "😀", "a😀b", "q_😀😀", "é😀", "pragma😀", "pragma😀x", "int😀", "gate😀q", "measure😀", "OPENQASMx😀", "dim😀", "im😀", "ns😀"][src.below(14)];
             lx(p, "IDENT", Cls::Word, "ident-emoji")
         }
         8 => {
